@@ -11,6 +11,11 @@ pub(crate) struct Thread {
     /// If the thread is runnable, blocked, or terminated.
     pub state: State,
 
+    /// `true` if the thread holds an `unpark` token that has not been consumed
+    /// by `park` yet. This is tracked separately from `state` so that blocking
+    /// on (or being woken by) another object does not lose the token.
+    pub unparked: bool,
+
     /// True if the thread is in a critical section
     pub critical: bool,
 
@@ -75,7 +80,7 @@ impl Id {
 
 #[derive(Debug, Clone, Copy)]
 pub(crate) enum State {
-    Runnable { unparked: bool },
+    Runnable,
     Blocked(#[allow(dead_code)] Location),
     Yield,
     Terminated,
@@ -93,7 +98,8 @@ impl Thread {
         Thread {
             id,
             span: tracing::info_span!(parent: parent_span.id(), "thread", id = id.id),
-            state: State::Runnable { unparked: false },
+            state: State::Runnable,
+            unparked: false,
             critical: false,
             operation: None,
             causality: VersionVec::new(),
@@ -106,11 +112,11 @@ impl Thread {
     }
 
     pub(crate) fn is_runnable(&self) -> bool {
-        matches!(self.state, State::Runnable { .. })
+        matches!(self.state, State::Runnable)
     }
 
     pub(crate) fn set_runnable(&mut self) {
-        self.state = State::Runnable { unparked: false };
+        self.state = State::Runnable;
     }
 
     pub(crate) fn set_blocked(&mut self, location: Location) {
@@ -155,14 +161,22 @@ impl Thread {
         self.set_unparked();
     }
 
-    /// Unpark a thread's state. If it is already runnable, store the unpark for
-    /// a future call to `park`.
+    /// Unpark a thread's state. If it is not currently parked, store the unpark
+    /// for a future call to `park`.
     fn set_unparked(&mut self) {
-        if self.is_blocked() || self.is_yield() {
+        if self.is_parked() || self.is_yield() {
             self.set_runnable();
-        } else if self.is_runnable() {
-            self.state = State::Runnable { unparked: true }
+        } else if !self.is_terminated() {
+            // The thread is runnable or blocked on some other object (a lock, a
+            // channel, a join, ...). Only that object may wake it up.
+            self.unparked = true;
         }
+    }
+
+    /// Returns `true` if the thread is blocked in `park`, i.e., it is blocked
+    /// without waiting for an operation on any object.
+    fn is_parked(&self) -> bool {
+        self.is_blocked() && self.operation.is_none()
     }
 }
 
